@@ -29,6 +29,7 @@
 %include "include/imb_job.inc"
 %include "include/mb_mgr_datastruct.inc"
 %include "include/reg_sizes.inc"
+%include "include/clear_regs.inc"
 %include "include/snow3g_uea2_by4_sse.inc"
 
 %define SUBMIT_JOB_SNOW3G_UEA2 submit_job_snow3g_uea2_sse
@@ -394,6 +395,8 @@ mksection .text
         ;; clear temporarily stored swapped IV (done inside of submit)
         pxor            %%TMP_XMM_0, %%TMP_XMM_0
         movdqa          [rsp + _keystream], %%TMP_XMM_0
+        ;; LFSR / FSM / keystream values are left in the XMM registers
+        clear_scratch_xmms_sse_asm
 %endif
 
         SNOW3G_FUNC_END
